@@ -296,7 +296,7 @@ Proof.
   f_equal. rewrite Z.div_1_r. now rewrite Z.mod_mod.
 Qed.
 
-Ltac Zify.zify_post_hook ::= Z.div_mod_to_equations.
+Local Ltac Zify.zify_post_hook ::= Z.div_mod_to_equations.
 
 Lemma pack2 : forall a, [(a / 2 ^ 0) mod 256; (a / 2 ^ 8) mod 256] = le_bytes 2 (a mod 2 ^ (8 * Z.of_nat 2)).
 Proof.
